@@ -4,7 +4,6 @@ package c14
 // argument values.
 
 import (
-	"bytes"
 	"fmt"
 	"math"
 	"math/big"
@@ -478,7 +477,34 @@ func tablesAgree(s string) bool {
 	return true
 }
 
+// makeSafe replaces the runes on which Wa's ctypes tables and Go's unicode
+// tables disagree (invalid bytes are kept).
+func makeSafe(s string) string {
+	if tablesAgree(s) {
+		return s
+	}
+	var b strings.Builder
+	for i := 0; i < len(s); {
+		r, n := utf8.DecodeRuneInString(s[i:])
+		if r != utf8.RuneError && !runeTablesAgree(r) {
+			b.WriteString("\u20ac")
+		} else {
+			b.WriteString(s[i : i+n])
+		}
+		i += n
+	}
+	return b.String()
+}
+
 func genStr(t *rapid.T, safe bool) string {
+	s := genStrRaw(t, safe)
+	if safe {
+		s = makeSafe(s)
+	}
+	return s
+}
+
+func genStrRaw(t *rapid.T, safe bool) string {
 	u8 := utf8Pieces
 	if safe {
 		u8 = safeUTF8Pieces
@@ -503,9 +529,6 @@ func genStr(t *rapid.T, safe bool) string {
 		return join([][]string{asciiPieces[:12], u8, badPieces, badPieces}, 0, 12)
 	case 9: // raw bytes
 		b := rapid.SliceOfN(rapid.Byte(), 0, 12).Draw(t, "raw")
-		if safe && !tablesAgree(string(b)) {
-			return string(bytes.ToValidUTF8(b, []byte("?")))
-		}
 		return string(b)
 	case 10: // long repetitive (crosses the brute-force / Rabin-Karp thresholds of Index)
 		unit := rapid.SampledFrom([]string{"a", "ab", "aab", "abc", "a ", "中a", "\xffa"}).Draw(t, "unit")
@@ -573,6 +596,14 @@ func strValueClasses(s string) []string {
 // genSep produces a separator / substring / prefix argument related to the
 // string argument named "s" of the same call.
 func genSep(g *genCtx, safe bool) string {
+	s := genSepRaw(g)
+	if safe {
+		s = makeSafe(s)
+	}
+	return s
+}
+
+func genSepRaw(g *genCtx) string {
 	t := g.t
 	sv, ok := g.argByName("s")
 	s := ""
